@@ -304,6 +304,9 @@ func (c *fctx) expr1(x ast.Expr, e *env, want *ty, whole bool) val {
 				}
 			}
 		}
+		if c.isUCLit(x, e) {
+			return val{"uhexp", tUC}
+		}
 		fail(x, "composite literal %s is not supported", types.ExprString(x.Type))
 
 	case *ast.BinaryExpr:
@@ -535,16 +538,43 @@ func (c *fctx) isUCCall(x *ast.CallExpr, e *env) bool {
 	return true
 }
 
+// isUCLit recognises contractUnlockConditions(hostKey, renterKey) written out (the helper inlined):
+// types.UnlockConditions{PublicKeys: []types.UnlockKey{renterKey, hostKey}, SignaturesRequired: 2}
+// with the function's two key parameters - the second one first, as in the helper
+func (c *fctx) isUCLit(x *ast.CompositeLit, e *env) bool {
+	if types.ExprString(x.Type) != "types.UnlockConditions" || len(c.keys) != 2 || len(x.Elts) != 2 {
+		return false
+	}
+	for _, k := range c.keys {
+		if v := e.lookup(k); v == nil || v.ty.k != kKey {
+			return false
+		}
+	}
+	var b strings.Builder
+	for _, r := range nodeSource(c.u.g, x) {
+		if r != ' ' && r != '\t' && r != '\n' && r != '\r' {
+			b.WriteRune(r)
+		}
+	}
+	got := strings.ReplaceAll(b.String(), ",}", "}")
+	keys := "PublicKeys:[]types.UnlockKey{" + c.keys[1] + "," + c.keys[0] + "}"
+	if got != "types.UnlockConditions{"+keys+",SignaturesRequired:2}" && got != "types.UnlockConditions{SignaturesRequired:2,"+keys+"}" {
+		fail(x, "unlock conditions literal is not the value the oracle parameter uhexp stands for: contractUnlockConditions(%s, %s) = {PublicKeys: {%s, %s}, SignaturesRequired: 2}", c.keys[0], c.keys[1], c.keys[1], c.keys[0])
+	}
+	c.u.g.usesPkg(x, "types")
+	return true
+}
+
 func (u *unit) checkUCDef(at ast.Node) {
 	if u.ucCheck {
 		return
 	}
-	fd, ok := u.g.funcs["contractUnlockConditions"]
-	if !ok {
-		fail(at, "contractUnlockConditions is not defined in this file")
+	g, fd := u.find("contractUnlockConditions")
+	if fd == nil {
+		fail(at, "contractUnlockConditions is not defined in this package")
 	}
 	var b strings.Builder
-	src := nodeSource(u.g, fd)
+	src := nodeSource(g, fd)
 	for _, r := range src {
 		if r != ' ' && r != '\t' && r != '\n' && r != '\r' {
 			b.WriteRune(r)
@@ -613,6 +643,21 @@ func (c *fctx) call(x *ast.CallExpr, e *env, whole bool) val {
 		r := c.exprRead(fn.X, e)
 		mi, ok := methods[r.ty.k][fn.Sel.Name]
 		if !ok {
+			// a value-receiver method of the receiver's own local type, defined in this package
+			// (programData.contains): translated on demand, the receiver is the first argument
+			if key := c.localMethod(r.ty, fn.Sel.Name); key != "" {
+				c.u.translate(key, x)
+				sig := c.u.sigs[key]
+				if sig.hasErr {
+					fail(x, "a method returning an error cannot be called in an expression")
+				}
+				if len(sig.results) != 1 {
+					fail(x, "call of a method with %d results in an expression", len(sig.results))
+				}
+				t := c.tmp()
+				c.pre = append(c.pre, fmt.Sprintf("do %s <- %s;", t, c.callTerm(x, strings.ReplaceAll(key, ".", "_")+" "+r.t, sig, e)))
+				return val{t, sig.results[0]}
+			}
 			if fn.Sel.Name == "Cmp" {
 				fail(x, "Cmp is only supported in the shape x.Cmp(y) OP 0")
 			}
@@ -634,6 +679,25 @@ func (c *fctx) call(x *ast.CallExpr, e *env, whole bool) val {
 	}
 	fail(x, "call %s is not in the supported subset", types.ExprString(x))
 	return val{}
+}
+
+// localMethod: "T.m" when t is the model type of the local named type T and the package defines
+// a value-receiver method m on T
+func (c *fctx) localMethod(t *ty, m string) string {
+	tables := []map[string]*ty{goTypes}
+	if c.u.out.mdm {
+		tables = append(tables, mdmTypes)
+	}
+	for _, tab := range tables {
+		for name, u := range tab {
+			if u == t && token.IsIdentifier(name) {
+				if _, fd := c.u.find(name + "." + m); fd != nil {
+					return name + "." + m
+				}
+			}
+		}
+	}
+	return ""
 }
 
 func (c *fctx) methodTerm(x *ast.CallExpr, r val, mi methodInfo, e *env) string {
